@@ -210,11 +210,8 @@ func c15Run(c *ev.Ctx, seq []c15step, si int, faultAt int, ferr error, kind stri
 		for _, v := range fsx.LifecycleViolations(true) {
 			c.Violation("C15:lifecycle-after-backend-error:"+v, map[string]any{"fault_at": faultAt, "kind": kind, "fault_in": firedMethod, "trace": st.tail()})
 		}
-	} else {
-		for _, v := range fsx.LifecycleViolations(false) {
-			c.Violation("C15:lifecycle-after-panic:"+v, map[string]any{"fault_at": faultAt, "fault_in": firedMethod, "trace": st.tail()})
-		}
 	}
+	// after a panic the statement demands service, not bookkeeping: nothing more is asserted
 	return calls
 }
 
